@@ -143,6 +143,38 @@ CLAIMED = {
    note='Trusted: rustc MIR constants, extractor, and that the recognised store shapes are the only writes to the table (checked: any other store fails closed).',
    technique='static analysis: table reconstruction from MIR literals + exhaustive finite check',
    ref='DESIGN.md section 2, C20'),
+
+ 'C03': dict(level='other',
+   text='One writer/reader clause decided: (SB-7) SuffixArray::sample stores row i in `sample` exactly on the edge i % rate == 0 '
+        'with rate the value kept in field s, and inserts extra_rows[i] exactly for unsampled rows whose BWT symbol equals the '
+        'stored sentinel; SampledSuffixArray::get reads sample[pos / s] exactly on the edge pos % s == 0 and extra_rows[&pos] '
+        'exactly under the mirrored condition, behind index < len. Sortedness of the suffix array, sentinel ordering, LCP and '
+        'shortest-unique-substring values and the LF-walk arithmetic are NOT decided (values over runtime data).',
+   note='Trusted: rustc MIR, extractor, guard normalisation.',
+   technique='static analysis: writer/reader guard agreement (normalised comparisons + dominance) over rustc MIR',
+   ref='DESIGN.md section 2, C03'),
+ 'C09': dict(level='proof',
+   text='Reuse clauses proved on the MIR: (RI-3) Ukkonen::find_all_end clears and refills both reused DP columns D[0], D[1] on '
+        'every path before the iterator is built, and Matches::next never resizes them; (EF-2) for both instantiations of '
+        'impl_myers! the non-traceback API distance/find_all_end/find_best_end takes &self and the Myers types cannot hold interior '
+        'mutability (rustc Freeze, or Copy for generic word types), so a search cannot influence a later one. That reported '
+        'distances equal the edit-distance definition (bit-vector arithmetic, block carries, delegated crates) is NOT decided; '
+        'generic BitVec shifts are trait calls in generic MIR so no word-width obligation is visible before monomorphisation.',
+   note='Trusted: rustc MIR, extractor, RI engine; Vec::clear semantics.',
+   technique='static analysis: must-reset dataflow and receiver/Freeze effect analysis over rustc MIR',
+   ref='DESIGN.md section 2, C09'),
+ 'C10': dict(level='proof',
+   text='Refusal and reset clauses proved on the MIR: (GD-2) Traceback::traceback_at reaches _traceback_at only on the edge '
+        'pos + 2 <= self.pos and returns None otherwise; (EF-3) the four lazy *_at queries of both instantiations reach the '
+        'traceback only through that guarded entry, the unguarded Traceback::traceback is called only from FullMatches; (GD-3) '
+        'FullMatches::{start,path_reverse,alignment} run the traceback only when unsuccessfully_finished is false; (TS-5) both '
+        'Matches constructors pass the matcher\'s state store through Traceback::new, which resizes it on both branches before '
+        'set_max_state and the first add_state, and Traceback is constructed nowhere else; (TB-9) Subst/Ins/Del/Match are each '
+        'produced only behind their own test. Validity of paths, ring-buffer wrap-around and equality of block-based and '
+        'single-word alignments are NOT decided.',
+   note='Trusted: rustc MIR, extractor, call graph; impl_myers! is analysed in both instantiations (simple, long).',
+   technique='static analysis: guard dominance, who-may-call over the call graph, must-pass-through ordering over rustc MIR',
+   ref='DESIGN.md section 2, C10'),
 }
 
 NOT_BUILT = 'rule not built yet (see DESIGN.md section 6)'
